@@ -16,6 +16,10 @@ def make_cases(chk):
         rng = random.Random(chk.seed * 100003 + 30000 + i)
         gens.append(gen.history(rng, rng.randint(6, hi), weights=WEIGHTS, trace=(i % 6 == 5)))
     gens += boundary_cases(chk)
+    import copy
+    from props import C12
+    sub = copy.copy(chk); sub.tier = 'quick'
+    gens += C12.make_cases(sub)[-(24 if chk.tier == 'quick' else 60):]       # generated stock dilutions, feasible and not (above the stock, more than there is)
     gens += gen.twin_lot_cases(chk.seed) + gen.twin_lot_cases(chk.seed, 'fill') + gen.short_well_cases(chk.seed) + gen.repeated_well_cases(chk.seed)
     return gens
 
@@ -29,6 +33,10 @@ def oracle(prog, obs, impl):
     f = oracles.c03(prog, obs, impl)
     if any(op['op'] in ('solution', 'solutionc') for op in prog['ops']):
         f += [x for x in C05.oracle(prog, obs, impl) if 'no positive solution' in x[1] or 'was refused' in x[1] or 'non-positive' in x[1]]
+    if any(op['op'] in ('solfrom', 'solfromc') for op in prog['ops']):
+        # an unreachable concentration (above the stock's) or an infeasible stock dilution must be refused, nothing negative comes out
+        from props import C12
+        f += [x for x in C12.oracle(prog, obs, impl) if "above the stock's" in x[1] or 'accepted' in x[1] or 'negative amount' in x[1] or 'instead of ValueError' in x[1]]
     return f
 
 
